@@ -62,6 +62,16 @@ CHECKS["C02"] = dict(
     design="5/C02",
 )
 
+CHECKS["C04"] = dict(
+    technique="generated-input robustness search (Hypothesis strategies over valid, mutated, indented, adversarial and corpus inputs x options) with an isolation oracle: no exception, no stdout/stdin use, bounded time with solitary confirmation, invalid input unchanged modulo whitespace",
+    text="format_code is called on the syntax zoo with placement metamorphs, all rule families, grammar programs, adversarial constant conditions, "
+         "the repository's own examples, vendored stdlib modules, indented fragments, token-mutated and arbitrary unicode inputs under drawn options; "
+         "any BaseException, stdout write, stdin read, guard expiry (confirmed alone with a 4x limit) or change to an invalid input is a violation, "
+         "bucketed by (exception type, innermost pyrefact function).",
+    note="Termination is observed within a generous bound, not proven; inputs are <= ~300 lines; a time budget expiry of the search itself is 'inconclusive' (budget_exhausted), never a violation.",
+    design="5/C04",
+)
+
 NOT_YET = {}
 
 
